@@ -180,6 +180,23 @@ def run(ctx):
     # plus the general generator with bitmaps
     cases += P.build_cases(ctx, ctx.n(120, 3000), gen_kwargs=dict(size=5), nsub_choices=(1, 2), compressed=(False, True),
                            versions=(33,), editions=(4,))
+    # associated fields, nested: an inner 204 span inside an outer one, elements after the inner cancellation (they
+    # carry the OUTER field again), optionally followed by a bitmap over those elements
+    rng = ctx.rng
+    pl = tmplgen.pools(33)
+    for k in range(ctx.n(20, 300)):
+        el = lambda: rng.choice(pl.numeric + pl.codeflag)
+        a, b2 = rng.choice([1, 2, 4, 8]), rng.choice([2, 3, 5])
+        inner = [204000 + b2, 31021, el(), 204000]
+        ids = [204000 + a, 31021, el()] + inner + [el(), el(), 204000]
+        forced = '-'
+        if k % 2:
+            ids += [el(), 222000, 236000, 101002, 31031, 33007]
+            forced = '31031=%d.%d' % tuple(rng.choice([(0, 1), (1, 0)]))
+        cases.append({'ids': ids, 'version': 33, 'edition': 4, 'nsub': rng.choice([1, 2]), 'compressed': rng.random() < 0.3,
+                      'forced': forced, 'seed': rng.randrange(1, 2 ** 32), 'maxrep': 3,
+                      'features': {'nested-204-then-outer': 1}, 'shared': False})
+        cases[-1]['shared'] = cases[-1]['compressed']
     P.attach_templates(cases)
     P.run_gen(cases)
     P.run_encode(cases)
